@@ -374,9 +374,9 @@ class nx_flow_mod (of.ofp_flow_mod, of.ofp_vendor_base):
       assert self.buffer_id is None
       self.buffer_id = self.data.buffer_id
       if self.buffer_id is None:
-        po = ofp_packet_out(data=self.data)
+        po = of.ofp_packet_out(data=self.data)
         po.in_port = self.data.in_port
-        po.actions.append(ofp_action_output(port = OFPP_TABLE))
+        po.actions.append(of.ofp_action_output(port = of.OFPP_TABLE))
         # Should maybe check that packet hits the new entry...
         # Or just duplicate the actions? (I think that's the best idea)
 
@@ -401,7 +401,7 @@ class nx_flow_mod (of.ofp_flow_mod, of.ofp_vendor_base):
       packed += i.pack()
 
     if po:
-      packed += ofp_barrier_request().pack()
+      packed += of.ofp_barrier_request().pack()
       packed += po.pack()
 
     assert len(packed) == len(self)
@@ -416,8 +416,9 @@ class nx_flow_mod (of.ofp_flow_mod, of.ofp_vendor_base):
             self.hard_timeout, self.priority, self._buffer_id,
             self.out_port, self.flags, match_len) = \
             _unpack("!QHHHHLHHH", raw, offset)
-    offset = self._skip(raw, offset, 6)
+    offset = _skip(raw, offset, 6)
     offset = self.match.unpack(raw, offset, match_len)
+    offset = _skip(raw, offset, (match_len + 7)//8*8 - match_len)
     offset,self.actions = of._unpack_actions(raw,
         length-(offset - _o), offset)
     assert length == len(self)
